@@ -2,6 +2,7 @@ package main
 
 import (
 	"fmt"
+	"os"
 	"go/token"
 	"go/types"
 	"sort"
@@ -341,6 +342,7 @@ func checkC04(p *Program, r *Report) {
 
 	c04Binding(p, r, m)
 	c04Closure(p, r, m)
+	c04Scratch(p, r, m, va)
 }
 
 func describeEnv(s string) string {
@@ -802,4 +804,144 @@ func childOfReceiver(fn *ssa.Function, seen map[*ssa.Function]bool) string {
 		}
 	}
 	return ""
+}
+
+// c04Scratch (R6): evaluation is re-entrant on one record: while a handler evaluates an operand, the same handler can run again
+// on the same record (a call inside an argument). Whatever a handler has computed before an evaluation and needs after it
+// therefore lives in locals. Storage reached through a field of the record that is not one of the protocol cells (a scratch
+// buffer kept on the record) and used both before and after an evaluation is overwritten by the nested run: an outer call's
+// already-evaluated arguments are replaced by the inner call's.
+func c04Scratch(p *Program, r *Report, m *vmModel, va *evalAnalysis) {
+	n := 0
+	for _, fn := range m.funcsOnRecord() {
+		base := m.baseOf(fn)
+		if _, isParam := base.(*ssa.Parameter); !isParam {
+			continue
+		}
+		// values that alias storage behind a non-cell field of the record
+		derived := map[ssa.Value]int{}
+		for _, b := range fn.Blocks {
+			for _, in := range b.Instrs {
+				if fa, ok := in.(*ssa.FieldAddr); ok && sameBase(fa.X, base) && m.cell[fa.Field] == "" {
+					derived[fa] = fa.Field
+				}
+			}
+		}
+		if len(derived) == 0 {
+			continue
+		}
+		for changed := true; changed; {
+			changed = false
+			for _, b := range fn.Blocks {
+				for _, in := range b.Instrs {
+					v, ok := in.(ssa.Value)
+					if !ok {
+						continue
+					}
+					if _, done := derived[v]; done {
+						continue
+					}
+					f, from := -1, false
+					add := func(x ssa.Value) {
+						if ff, ok := derived[x]; ok {
+							f, from = ff, true
+						}
+					}
+					switch x := in.(type) {
+					case *ssa.Slice:
+						add(x.X)
+					case *ssa.IndexAddr:
+						add(x.X)
+					case *ssa.Phi:
+						for _, e := range x.Edges {
+							add(e)
+						}
+					case *ssa.Call:
+						if bi, ok := x.Call.Value.(*ssa.Builtin); ok && bi.Name() == "append" && len(x.Call.Args) > 0 {
+							add(x.Call.Args[0])
+						}
+					case *ssa.UnOp:
+						// a local that lives in memory (captured by a function literal): what was stored into it
+						if al, ok := x.X.(*ssa.Alloc); ok && x.Op == token.MUL {
+							for _, ref := range *al.Referrers() {
+								if st, ok := ref.(*ssa.Store); ok && st.Addr == ssa.Value(al) {
+									add(st.Val)
+								}
+							}
+						}
+					}
+					if from {
+						derived[v] = f
+						changed = true
+					}
+				}
+			}
+		}
+		// uses: instructions with a derived operand
+		type use struct {
+			in ssa.Instruction
+			f  int
+		}
+		var uses []use
+		for _, b := range fn.Blocks {
+			for _, in := range b.Instrs {
+				for _, op := range in.Operands(nil) {
+					if op == nil || *op == nil {
+						continue
+					}
+					if f, ok := derived[*op]; ok {
+						uses = append(uses, use{in, f})
+						break
+					}
+				}
+			}
+		}
+		reachesInstr := func(a, b ssa.Instruction) bool { // a executes before b on some path
+			if a.Block() == b.Block() && instrIndex(a) < instrIndex(b) {
+				return true
+			}
+			for _, s := range a.Block().Succs {
+				if s == b.Block() || reachable(s, nil)[b.Block()] {
+					return true
+				}
+			}
+			return false
+		}
+		if os.Getenv("ANKO_DBG") != "" {
+			for _, u := range uses {
+				fmt.Fprintln(os.Stderr, "DBGUSE", funcName(fn), u.f, u.in, p.Pos(instrPos(u.in)))
+			}
+		}
+		fields := map[int]bool{}
+		for _, u := range uses {
+			fields[u.f] = true
+		}
+		for f := range fields {
+			n++
+			bad := ""
+			for _, e := range va.events[fn] {
+				var before, after ssa.Instruction
+				for _, u := range uses {
+					if u.f != f {
+						continue
+					}
+					if before == nil && reachesInstr(u.in, e.call) {
+						before = u.in
+					}
+					if after == nil && reachesInstr(e.call, u.in) {
+						after = u.in
+					}
+				}
+				if before != nil && after != nil {
+					bad = fmt.Sprintf("storage behind record field #%d is used at %s, an operand is evaluated at %s, and it is used again at %s", f, p.Pos(instrPos(before)), p.Pos(e.call.Pos()), p.Pos(instrPos(after)))
+					break
+				}
+			}
+			r.Check(bad == "", "C04.R6", fmt.Sprintf("%s|record field #%d not live across an evaluation", funcName(fn), f), p.Pos(fn.Pos()), "not used on both sides of an evaluation",
+				bad+": the evaluation can re-enter this handler on the same record and overwrite it (a call nested in an argument replaces the outer call's already-evaluated arguments)")
+		}
+	}
+	if n == 0 {
+		r.OK("C04.R6", "record|protocol cells only", "vm", "the handlers keep nothing on the record besides the protocol cells (statement, expression, operator, value, error, scope, context, options, deferred calls)")
+	}
 }
